@@ -279,6 +279,63 @@ func c15Jobs() []sjob {
 			}
 			x.obs = transcriptOf(key, r1) + transcriptOf(key, r2)
 		}},
+		{"H7 reload of a different configuration while a connection is being served", func(x *sx) {
+			w := newSWorldR(e.Cfg, nil)
+			w.serve()
+			// the new configuration denies what the old one permits and moves the scope to another key
+			e2 := newREnv(defaultSecrets(), "")
+			for i := range e2.Cfg.Users {
+				if e2.Cfg.Users[i].Name == "own" {
+					e2.Cfg.Users[i].Commands = []config.Command{{Name: "show", Action: config.DENY}}
+				}
+			}
+			var r1 [][]byte
+			var wg vsyncrt.WaitGroup
+			wg.Add(2)
+			c1 := w.W.NewConn(1, srvx.Addr4(10, 0, 0, 1, 1001))
+			vsyncrt.Go(func() {
+				sclient(w, c1, [][]byte{authorPkt(key, "own", 1, "service=shell", "cmd=show"), authorPkt(key, "own", 2, "service=shell", "cmd=show")}, &r1, true)
+				wg.Done()
+			})
+			vsyncrt.Go(func() { w.feed.ch.Send(e2.Cfg); wg.Done() })
+			wg.Wait()
+			w.shutdown()
+			// a connection is bound to the configuration it was admitted under: both answers come from one configuration
+			if len(r1) == 2 {
+				a, b := replyStatus(key, r1[0], 2), replyStatus(key, r1[1], 2)
+				if !((a == 1 && b == 1) || (a == 0x10 && b == 0x10)) {
+					x.fail("H7/mixed-configuration", fmt.Sprintf("one connection was answered from two configurations: statuses %#x then %#x", a, b))
+				}
+			} else {
+				x.fail("H7/functional", fmt.Sprintf("%d replies for 2 requests", len(r1)))
+			}
+			x.obs = transcriptOf(key, r1)
+		}},
+		{"H8 two connections, same user, one session authorization each", func(x *sx) {
+			w := newSWorldR(e.Cfg, nil)
+			w.serve()
+			var r1, r2 [][]byte
+			var wg vsyncrt.WaitGroup
+			wg.Add(2)
+			c1 := w.W.NewConn(1, srvx.Addr4(10, 0, 0, 1, 1001))
+			c2 := w.W.NewConn(2, srvx.Addr4(10, 0, 0, 2, 1002))
+			vsyncrt.Go(func() {
+				sclient(w, c1, [][]byte{authorPkt(key, "own", 1, "service=ppp", "protocol=ip")}, &r1, true)
+				wg.Done()
+			})
+			vsyncrt.Go(func() {
+				sclient(w, c2, [][]byte{authorPkt(key, "own", 2, "service=ppp", "protocol=ip")}, &r2, true)
+				wg.Done()
+			})
+			wg.Wait()
+			w.shutdown()
+			for i, r := range [][][]byte{r1, r2} {
+				if len(r) != 1 || replyStatus(key, r[0], 2) != 1 {
+					x.fail("H8/functional", fmt.Sprintf("client %d: session authorization not answered PASS_ADD", i+1))
+				}
+			}
+			x.obs = transcriptOf(key, r1) + transcriptOf(key, r2)
+		}},
 		{"H6 cancellation concurrent with serving", func(x *sx) {
 			w := newSWorldR(e.Cfg, nil)
 			w.serve()
